@@ -61,6 +61,7 @@ pub fn dup_key() -> BoxedStrategy<Blob> {
         1 => Just(Blob::Lit(vec![])),
         1 => (0u8..3, 100u32..400).prop_map(|(i, n)| Blob::Pad { fill: 0x6c, n, tail: vec![i] }),
         1 => gen::key_magic_len(),
+        2 => gen::key_path(),
     ]
     .boxed()
 }
@@ -212,26 +213,35 @@ where
     let mut created = 0;
     for exit in [Exit::Stream, Exit::Writer, Exit::Cursors] {
         let n = Rc::new(Cell::new(0u64));
-        let s = feed(conf, MF::plain(kind), Counting { inner: cc.clone(), n: n.clone() }, inserts)?;
+        let s = feed(conf, MF::verifying(kind), Counting { inner: cc.clone(), n: n.clone() }, inserts)?;
         outs.push(drain(s, exit, kind, &out_conf, distinct + 1)?);
         created = n.get();
     }
     Ok((outs, created))
 }
 
+/// What is fed to the sorter: every value is prefixed with a 2-byte tag of its key (so that the merge function can
+/// verify its `key` argument); for Concat the tagged value is framed as one self-delimiting record.
 pub fn prepared(kind: MergeKind, src: &InsertSrc) -> Vec<(Vec<u8>, Vec<u8>)> {
-    let raw = src.inserts();
-    match kind {
-        // values become self-delimiting records so that the merged value parses back into its parts
-        MergeKind::Concat => raw.into_iter().map(|(k, v)| (k, record(&v))).collect(),
-        _ => raw,
-    }
+    model_inserts(kind, src)
+        .into_iter()
+        .map(|(k, v)| match kind {
+            MergeKind::Concat => {
+                let r = record(&v);
+                (k, r)
+            }
+            _ => (k, v),
+        })
+        .collect()
 }
 
-/// the model sees the raw values (before framing) for Concat
+/// what the model sees: the tagged values before framing (SumU32 values stay plain numbers)
 pub fn model_inserts(kind: MergeKind, src: &InsertSrc) -> Vec<(Vec<u8>, Vec<u8>)> {
-    let _ = kind;
-    src.inserts()
+    let raw = src.inserts();
+    match kind {
+        MergeKind::SumU32 => raw,
+        _ => raw.into_iter().map(|(k, v)| { let t = sm::tagged(&k, &v); (k, t) }).collect(),
+    }
 }
 
 impl Prop for C07 {
